@@ -13,7 +13,30 @@ type stdHandler func(x *Exec, fr *Frame, st *State, site ssa.Instruction, callee
 type ifaceHandler func(x *Exec, fr *Frame, st *State, site ssa.Instruction, recv Val, args []Val, k Kont)
 
 var stdHandlers map[string]stdHandler
-var ifaceHandlers = map[string]ifaceHandler{}
+var ifaceHandlers = map[string]ifaceHandler{
+	"(context.Context).Value": hCtxValue,
+	"(error).Error":           hErrorString,
+}
+
+// ctx.Value(key): a deterministic function of the context value and the key's dynamic type
+// (keys in this code base are values of distinct empty struct types).
+func ctxValue(ctx Val, key Val) (typ, val *Term) {
+	return UF("ctxval.typ", IntSort, ctx.C[0], ctx.C[1], key.C[0]), UF("ctxval.val", IntSort, ctx.C[0], ctx.C[1], key.C[0])
+}
+
+func hCtxValue(x *Exec, fr *Frame, st *State, site ssa.Instruction, recv Val, args []Val, k Kont) {
+	x.assumeNote("assumed contract (context.Context).Value: pure, deterministic in (context, key type); WithValue(p,k,v).Value(k) == v and other keys delegate to p")
+	typ, val := ctxValue(recv, args[0])
+	st.assume(IntCmp(">=", typ, IntConst(0)))
+	st.assume(Implies(Eq(typ, IntConst(0)), Eq(val, IntConst(0))))
+	st.assume(st.liveRef(val))
+	k(st, Val{T: types.NewInterfaceType(nil, nil), C: []*Term{typ, val}}, false)
+}
+
+func hErrorString(x *Exec, fr *Frame, st *State, site ssa.Instruction, recv Val, args []Val, k Kont) {
+	x.assumeNote("assumed contract (error).Error: pure, returns a string determined by the error value")
+	k(st, Val{T: types.Typ[types.String], C: []*Term{UF("errstr", IntSort, recv.C[0], recv.C[1])}}, false)
+}
 
 var stdDocs = map[string]string{
 	"math/bits.LeadingZeros8":    "returns the number of leading zero bits in x; 8 for x == 0 (exact)",
@@ -43,6 +66,7 @@ func init() {
 		"(time.Duration).Seconds":  hDurSeconds,
 		"fmt.Errorf":               hNewError,
 		"errors.New":               hNewError,
+		"context.WithValue":        hCtxWithValue,
 	}
 }
 
@@ -202,4 +226,20 @@ func hNewError(x *Exec, fr *Frame, st *State, site ssa.Instruction, callee *ssa.
 	used(x, "fmt.Errorf")
 	ref := st.alloc()
 	k(st, Val{T: callee.Signature.Results().At(0).Type(), C: []*Term{IntConst(900001), ref}}, false)
+}
+
+func hCtxWithValue(x *Exec, fr *Frame, st *State, site ssa.Instruction, callee *ssa.Function, args []Val, k Kont) {
+	x.assumeNote("assumed contract context.WithValue: returns a fresh context c with c.Value(k) == v; every other key delegates to the parent")
+	parent, key, v := args[0], args[1], args[2]
+	ref := st.alloc()
+	res := Val{T: callee.Signature.Results().At(0).Type(), C: []*Term{IntConst(900002), ref}}
+	typ, val := ctxValue(res, key)
+	st.assume(And(Eq(typ, v.C[0]), Eq(val, v.C[1])))
+	// delegation for other key types
+	kt := BoundVar("kt!cv", IntSort)
+	st.assume(Forall([]*Term{kt}, Implies(Not(Eq(kt, key.C[0])), And(
+		Eq(UF("ctxval.typ", IntSort, res.C[0], res.C[1], kt), UF("ctxval.typ", IntSort, parent.C[0], parent.C[1], kt)),
+		Eq(UF("ctxval.val", IntSort, res.C[0], res.C[1], kt), UF("ctxval.val", IntSort, parent.C[0], parent.C[1], kt)))),
+		[]*Term{UF("ctxval.typ", IntSort, res.C[0], res.C[1], kt)}, []*Term{UF("ctxval.val", IntSort, res.C[0], res.C[1], kt)}))
+	k(st, res, false)
 }
